@@ -461,6 +461,9 @@ func (s *applicationState) doCommit() (uint64, error) {
 		return 0, err
 	}
 
+	// The block is now committed, apply its node-local effects.
+	s.blockCtx.RunCommitHooks()
+
 	// Reset block context.
 	s.blockCtx = nil
 	// Switch the check tree to the newly committed version. Note that this is safe as CometBFT
